@@ -75,6 +75,25 @@ def pool(R):
         P.append({"fn": "jalali", "s": s})
     for s in ["14-09-1432", "20 Rajab 1436 10:30"]:
         P.append({"fn": "hijri", "s": s})
+    # absolute-parser failures with the default settings object in non-MDY locales, and order-sensitive calls that must not notice
+    poison = []
+    for lg, bad in (("fr", "32/13/2020"), ("de", "45.45.2020"), ("hu", "2020.13.45")):
+        P.append({"fn": "parse", "s": bad, "kw": {"languages": [lg]}}); poison.append(len(P) - 1)
+    sensitive = []
+    for kw in ({"languages": ["tl"]}, {"languages": ["en"], "settings": {"PREFER_LOCALE_DATE_ORDER": False}}, {"languages": ["tl"], "settings": {"PREFER_DAY_OF_MONTH": "first"}}):
+        P.append({"fn": "parse", "s": "02/03/2020", "kw": kw}); sensitive.append(len(P) - 1)
+    pool.poison, pool.sensitive = poison, sensitive
+    # the per-locale dictionaries are shared objects used under each caller's settings: calls on one locale that differ only in what
+    # those objects read (SKIP_TOKENS) under both NORMALIZE values, on strings whose reading depends on a skip token
+    groups = []
+    for lg in ("en", "fr"):
+        for norm in (True, False):
+            g = []
+            for skip in ([], ["t"], ["foo"], ["de"]):
+                for s in ("2015-03-12t10:20", "12 foo March 2015", "02 de 03 2015"):
+                    P.append({"fn": "parse", "s": s, "kw": {"languages": [lg], "settings": {"RELATIVE_BASE": B1, "NORMALIZE": norm, "SKIP_TOKENS": skip}}}); g.append(len(P) - 1)
+            groups.append(g)
+    pool.groups = groups
     # failing calls
     P.append({"fn": "parse", "s": "2015", "kw": {"settings": {"UNKNOWN": 1}}})
     P.append({"fn": "parse", "s": "2015", "kw": {"languages": ["xx"]}})
@@ -142,6 +161,13 @@ def run(ctx):
                     a, b = R.choice(g["inst"]), R.choice(g["inst"])
                     mid = [R.randrange(len(P)) for _ in range(R.randint(0, 2))]
                     hists.append(([a] + mid + [o] + [b], "0"))
+        for g in getattr(pool, "groups", []):
+            prs = [(a, b) for a in g for b in g if a != b and P[a]["kw"]["settings"]["SKIP_TOKENS"] != P[b]["kw"]["settings"]["SKIP_TOKENS"]]
+            for a, b in (prs if tier != "quick" else R.sample(prs, 40)):
+                hists.append(([a, b], "0"))
+        for a in getattr(pool, "poison", []):
+            for b in getattr(pool, "sensitive", []):
+                hists.append(([a, b], "0"))
         hres = mpool.map(_hist, [([P[i] for i in idx], seed) for idx, seed in hists], chunksize=2)
         # fresh results under the other hash seeds too
         seeds = sorted({s for _, s in hists if s != "0"})
